@@ -112,6 +112,15 @@ def gen_terms(tier):
         yield "three-mid", ["einsum", "ij,jk,k->i", A, m, phv("w")]
         for m2 in m1[:12]:
             yield "both", ["matmul", m, m2]
+        # an index that is contracted although only one operand spans it (a unit axis inside the operand tree then counts
+        # n times): single-operand reductions, an index private to one operand, a partner with a unit axis
+        yield "rowsum", ["einsum", "ij->i", m]
+        yield "colsum", ["einsum", "ij->j", m]
+        yield "total", ["einsum", "ij->", m]
+        yield "private-index", ["einsum", "ij,ik->ik", m, A]
+        yield "private-index-right", ["einsum", "ik,ij->ik", A, m]
+        yield "unit-partner", ["einsum", "ij,j->i", m, ["ph", "onev", [1], "float64"]]
+        yield "unit-partner-matrix", ["einsum", "ij,jk->ik", m, ["ph", "rowm", [1, 3], "float64"]]
     # two / three einsums with identical subscripts and shared leaves (cache reuse across einsums)
     for v in v1:
         for v2 in v1[:10]:
